@@ -411,6 +411,76 @@ def c18(ctx):
     return "model_checking"
 
 
+def mc_tostr(ctx):
+    """C03 at design level: what ToStr.tla (mirror of Expr::to_str) prints for an easy subtree parses back to the same meaning, at every
+    precedence and in context, and consecutive pieces concatenate (MC_ToStr.tla)."""
+    files = [pats("core", n) for n in (1, 2, 3)] + [pats("case", 3), pats("ctxfill", 0)]
+    recs = []
+    for f in files:
+        recs += read_ndjson(f)
+    if not ctx.quick:
+        recs += sample(ctx, read_ndjson(pats("core", 4)), 20000)
+    path = os.path.join(common.workdir(ctx.prop), "tostr.pats.ndjson")
+    common.write_ndjson(path, renumber_ids(recs))
+    cfg = "SPECIFICATION Spec\nINVARIANT PrintedMeansSame\nINVARIANT PrintedFitsContext\nINVARIANT PiecesConcatenate\nCHECK_DEADLOCK FALSE\n"
+    r = tlc.run_mc(ctx, "MC_ToStr", cfg, env=dict(VH_PATS=path), workers=8, timeout=7200)
+    mc_violation(ctx, r, "MC_ToStr(%d patterns)" % len(recs))
+    ctx.cov["mc_tostr"] = dict(patterns=len(recs), pattern_subtree_pairs=r.distinct - len(recs) - 1,
+                               note="Parse.tla(ToStr.tla(subtree, p)) means the subtree for p in 0..3, inside *, concatenation and alternation contexts, and for runs of siblings")
+
+
+def run_tostr_oracle(ctx, name, recs):
+    """Expr::to_str on every subtree of the real parse tree of every input, at precedences 0..3.  Judged: the printed text, read the way
+    the regex crate reads it (RxRead.tla), means the subtree.  Reported only: it differs from the mirror ToStr.tla (spec drift)."""
+    d = common.workdir(ctx.prop)
+    inp = os.path.join(d, name + ".tin.ndjson")
+    common.write_ndjson(inp, recs)
+    prefix = os.path.join(d, name + ".tostr")
+    common.clean_prefix(prefix)
+    shards = 16
+    common.vh(["tostr", "--inputs", inp, "--out", prefix, "--shards", shards])
+    rs = tlc.run_shards("TraceToStr", [dict(VH_RECS="%s.%d.ndjson" % (prefix, i)) for i in range(shards)])
+    tlc.require_clean(rs, "TraceToStr(%s)" % name)
+    ctx.add_tlc(rs)
+    st = {}
+    drift = []
+    for r in rs:
+        for k, v in r.tagged("STATS")[0].items():
+            st[k] = st.get(k, 0) + v
+        for j in r.tagged("REJECT"):
+            ctx.violation("to_str: pattern %s, subtree #%s %s is handed to the regex crate as %s, which means something else (verdicts %s)"
+                          % ("".join(j["chars"])[:80], j["subtree"], json.dumps(j["tree"])[:200], json.dumps(["".join(x) for x in j["observed"]]), j["verdicts"]),
+                          dict(kind="tostr", input=dict(id=1, toks=j["chars"]), got=j))
+        drift += r.tagged("DRIFT")
+    if st["records"] != len(recs):
+        raise ToolError("TraceToStr(%s): %d of %d inputs validated" % (name, st["records"], len(recs)))
+    if drift:
+        st["drift_example"] = dict(pattern="".join(drift[0]["chars"]), mirror=["".join(x) for x in drift[0]["mirror"]], observed=["".join(x) for x in drift[0]["observed"]])
+        ctx.cov.setdefault("spec_drift", {})["to_str_" + name] = "%d subtrees: Expr::to_str prints something else than the mirror ToStr.tla (informational; judged by meaning)" % st["drift_subtrees"]
+    ctx.cov.setdefault("to_str_oracle", {})[name] = st
+    ctx.traces += st["ok"]
+    log("to_str oracle %s: %d inputs, %d texts judged, %d unread, %d drift, %d rejected" % (name, st["records"], st["judged_texts"], st["unread_texts"], st["drift_subtrees"], st["rejected"]))
+    return st
+
+
+def mc_front(ctx):
+    """C19 at design level: Norm(Abs(Parse.tla(Spell(ast, style)))) = Norm(ast) for every pattern of the exported spaces and every
+    applicable style (MC_Front.tla); the parser model itself is bound to the real parser by TraceParse."""
+    files = [pats("core", n) for n in (1, 2, 3)] + [pats("cond", 3), pats("lb", 3), pats("case", 3), pats("ctxfill", 0), pats("condctx", 0)]
+    recs = []
+    for f in files:
+        recs += read_ndjson(f)
+    if not ctx.quick:
+        recs += sample(ctx, read_ndjson(pats("core", 4)), 30000)
+    path = os.path.join(common.workdir(ctx.prop), "front.pats.ndjson")
+    common.write_ndjson(path, renumber_ids(recs))
+    cfg = "SPECIFICATION Spec\nINVARIANT Accepted\nINVARIANT SameMeaning\nINVARIANT SameGroupCount\nINVARIANT NamesRight\nCHECK_DEADLOCK FALSE\n"
+    r = tlc.run_mc(ctx, "MC_Front", cfg, env=dict(VH_PATS=path), workers=8, timeout=7200)
+    mc_violation(ctx, r, "MC_Front(%d patterns x 13 styles)" % len(recs))
+    ctx.cov["mc_front"] = dict(patterns=len(recs), pattern_style_pairs=r.distinct - len(recs) - 1,
+                               note="front end closed in the specification: Spell -> characters -> Parse.tla -> Abs -> Norm = Norm(ast), group count and names")
+
+
 @check("C19")
 def c19(ctx):
     excl = "".join(common.excl_classes("C19"))
@@ -420,6 +490,7 @@ def c19(ctx):
                 "class) and, where the tree is defined to be the same, the same parser tree (hash of the Debug rendering) as the plain spelling; "
                 "non-trivial = matching cells")
     t3 = texts("sig6", 3)
+    mc_front(ctx)
     sp = []
     for n in (1, 2, 3):
         sp += read_ndjson(common.export("spell_core_%d" % n, "spell", n, prof="core"))
@@ -436,7 +507,7 @@ def c19(ctx):
         run_parse_oracle(ctx, name, recs)
     probe_known(ctx, "caps")
     ctx.exhaustive = False
-    ctx.assumptions = ROWS_ASSUME + ["Spell.tla is a generative model: only spellings it produces are covered (the parser is not modelled as a recogniser)"]
+    ctx.assumptions = ROWS_ASSUME + ["Spell.tla is a generative model: only spellings it produces are covered; the recogniser direction is Parse.tla (bound tree by tree by TraceParse) and MC_Front (Parse.tla o Spell = identity up to Norm)"]
     return "model_checking"
 
 
@@ -1028,8 +1099,9 @@ def c03(ctx):
     ctx.rule = ("records = (base pattern, injected pattern): every single-site injection of (?=) (before/after every "
                 "sub-expression, exported by TLC from Gram!Injections) and seeded multi-site injections; the injected "
                 "pattern's rows over all texts x offsets must equal RefSem!Search of the BASE pattern (all groups); "
-                "the spec-level lemma Search(injected)=Search(base) is checked by TLC on the same cells; "
-                "non-trivial = matching cells")
+                "the spec-level lemma Search(injected)=Search(base) is checked by TLC on the same cells; the base patterns themselves are validated as well; "
+                "delegation text: Expr::to_str of every subtree at every precedence must be what ToStr.tla prints (TraceToStr), and MC_ToStr shows that "
+                "text parses back to the subtree's meaning; non-trivial = matching cells")
     t3 = texts("sig6", 3)
     single = []
     for n in (1, 2, 3):
@@ -1055,10 +1127,23 @@ def c03(ctx):
                   ("inj_pat123", renumber_ids(single), t3), ("inj_ctxfill", cf, t3), ("inj_pat4", renumber_ids(sample(ctx, p4, 40000)), t3),
                   ("inj_multi", multi(10000), t3)]
     ctx.exhaustive = False
+    # what is handed to the regex crate: Expr::to_str mirrored (ToStr.tla), model-checked to keep the meaning, and bound to the code
+    mc_tostr(ctx)
+    sp = []
+    for n in (1, 2, 3):
+        sp += read_ndjson(common.export("spell_core_%d" % n, "spell", n, prof="core"))
+    spcf = read_ndjson(common.export("spell_ctxfill_0", "spell", 0, prof="ctxfill"))
+    vocab = read_ndjson(common.export("vocab_2", "vocab", 2, timeout=3600))
+    if ctx.quick:
+        run_tostr_oracle(ctx, "spell", renumber_ids(sample(ctx, sp, 2500) + sample(ctx, spcf, 1500)))
+        run_tostr_oracle(ctx, "vocab2", renumber_ids(sample(ctx, vocab, 3000)))
+    else:
+        run_tostr_oracle(ctx, "spell", renumber_ids(sp + spcf))
+        run_tostr_oracle(ctx, "vocab2", vocab)
     for name, recs, tpath in spaces:
         rowsp.run_rows(ctx, name, recs, tpath, "caps", excl, lemma=True)
     probe_known(ctx, "caps")
-    ctx.assumptions = ROWS_ASSUME + ["base patterns themselves are compared with RefSem by C01/C02"]
+    ctx.assumptions = ROWS_ASSUME + ["on the subset of syntax Expr::to_str prints, the regex crate reads a pattern as this library's own parser does (MC_ToStr re-parses with Parse.tla); the behaviour rows do not depend on this assumption"]
     return "model_checking"
 
 
@@ -1084,6 +1169,14 @@ def replay(ctx, path):
     if d.get("kind") == "parse":
         sub = common.Ctx(ctx.prop, ctx.tier, ctx.seed)
         run_parse_oracle(sub, "replay", [d["input"]])
+        print(json.dumps([v["what"] for v in sub.violations], indent=1))
+        if sub.violations:
+            print("VIOLATION property=%s replay=%s" % (ctx.prop, path))
+            return 1
+        return 0
+    if d.get("kind") == "tostr":
+        sub = common.Ctx(ctx.prop, ctx.tier, ctx.seed)
+        run_tostr_oracle(sub, "replay", [d["input"]])
         print(json.dumps([v["what"] for v in sub.violations], indent=1))
         if sub.violations:
             print("VIOLATION property=%s replay=%s" % (ctx.prop, path))
